@@ -385,14 +385,19 @@ def procStore (p : Proc) : Store :=
 /-- `Store._generate_paths(processes, flow, topology)` -/
 def generatePaths : Store → List (String × PTree) → Except Err Store
   | s, [] => .ok s
-  | .mk a inner, (k, .proc p) :: rest =>
-    match topologyPorts (.mk a (AL.set k (procStore p) inner)) p.ports p.topo with
+  | s, (k, t) :: rest =>
+    match one s k t with
     | .ok s' => generatePaths s' rest
     | .error e => .error e
-  | .mk a inner, (k, .node kids) :: rest =>
-    match generatePaths ((AL.lookup k inner).getD .empty) kids with
-    | .ok c => generatePaths (.mk a (AL.set k c inner)) rest
-    | .error e => .error e
+where
+  /-- one `key, subprocess` of the loop: a process gets its node and its ports are wired; a dict
+  of processes recurses into the child node -/
+  one : Store → String → PTree → Except Err Store
+    | .mk a inner, k, .proc p => topologyPorts (.mk a (AL.set k (procStore p) inner)) p.ports p.topo
+    | .mk a inner, k, .node kids =>
+      match generatePaths ((AL.lookup k inner).getD .empty) kids with
+      | .ok c => .ok (.mk a (AL.set k c inner))
+      | .error e => .error e
 
 /-- the items of a divided state when it is used as a dict -/
 def DS.entries (h : Heap) : DS → Option (List (String × DS))
@@ -635,6 +640,20 @@ where
       | some t, some r => some ((k, t) :: r)
       | _, _ => none
 
+/-- the processes a daughter gets: the ones the `_divide` entry supplies, else (a deep copy of)
+the mother's -/
+def daughterProcs (s : Store) (mother : String) (dkvs : KVs) : Except Err (List (String × PTree)) :=
+  if KV.has "processes" dkvs || KV.has "steps" dkvs then
+    match (KV.lookup "processes" dkvs).bind parsePTree with
+    | some (.node l) => .ok l
+    | some (.proc _) => .error .attributeError
+    | none => .error .keyError
+  else
+    match (AL.lookup mother s.inner).bind getProcesses with
+    | some (.node l) => .ok l
+    | some (.proc _) => .error .attributeError
+    | none => .ok []
+
 /-- one daughter of `Store.divide` -/
 def divideDaughter (s : Store) (mother : String) (w : World) (daughter : Val) (dstate : DS) :
     Except Err (World × Store) :=
@@ -645,18 +664,7 @@ def divideDaughter (s : Store) (mother : String) (w : World) (daughter : Val) (d
     | .ok (h, merged) =>
       match KV.lookup "key" dkvs with
       | some (.str key) =>
-        let procs : Except Err (List (String × PTree)) :=
-          if KV.has "processes" dkvs || KV.has "steps" dkvs then
-            match (KV.lookup "processes" dkvs).bind parsePTree with
-            | some (.node l) => .ok l
-            | some (.proc _) => .error .attributeError
-            | none => .error .keyError
-          else
-            match (AL.lookup mother s.inner).bind getProcesses with
-            | some (.node l) => .ok l
-            | some (.proc _) => .error .attributeError
-            | none => .ok []
-        match procs with
+        match daughterProcs s mother dkvs with
         | .error e => .error e
         | .ok pl =>
           match generate h s [key] pl merged with
